@@ -91,6 +91,12 @@ CHECKS = {
   note="Completion order is forced at the Fetcher plug-in boundary; the goroutine's bookkeeping after Fetch returns is not gated (Go offers no scheduler control).",
   technique="TLA+ concurrent fetch model checked exhaustively by TLC (safety + liveness); schedule-directed replay with a gating Fetcher; TLC trace validation",
   design_ref="DESIGN.md 5/C16"),
+ "C19": dict(
+  category="fault_enumeration",
+  text="Settings.tla models the settings file at syscall granularity (in-place truncate+write vs temporary file+rename; with or without a lock; Crash at any time; failing writes): TLC shows that only rename+lock satisfies AtomicOnDisk, Serializable and OthersUntouched and rejects the other three designs. Which design the CODE has is read off reality: the syscalls of the real /saveconfig handler are recorded with strace and TraceSettings.tla evaluates AtomicOnDisk at every crash point of that sequence (after each syscall and inside each write); a kill at the first write to the settings file, a kill at the rename and ENOSPC on the settings write are then injected for real (strace inject) and the file must hold the complete old or new contents. Schedules: request pairs are forced through read(a) read(b) write(a) write(b) with the verif gate and the file must equal a serial order. Sequential histories from the model and 32 option values x 3 combinations go through save -> config-menu link -> compare.",
+  note="Crash points are those of the recorded syscall sequence; power-loss ordering (fsync/dir sync) is not modelled. Concurrency within one pprof process.",
+  technique="TLA+ syscall-level model checked by TLC; strace-recorded syscall trace validated by TLC; strace fault injection and gated schedules on the real handlers",
+  design_ref="DESIGN.md 5/C19"),
 }
 
 NOT_YET = "check not built yet in this session (planned in DESIGN.md section 5)"
